@@ -164,3 +164,46 @@ Proof.
   destruct g_needed as (_ & _ & _ & RW & _).
   exact (reads_are_edges gW g_node g_fm g_declared 5 e_C1 eq_refl RW).
 Qed.
+
+(* the environment form: g_sem as an environment meaning reads only declared precedents *)
+Example g_influence_env v :
+  espec gW (esem_of gW g_sem) (upd (wb_inp0 gW) 2 v) 4 = espec gW (esem_of gW g_sem) (wb_inp0 gW) 4.
+Proof.
+  apply (influence_env gW g_wf _ (esem_of_declared gW g_sem)); [cbn; lia|]. intros a Ia A.
+  unfold upd. destruct (Nat.eqb_spec a 2) as [->|NE]; [|reflexivity].
+  exfalso. now apply g_not_anc.
+Qed.
+
+(* a computed node reads all its precedents: C1 on the initial cache *)
+Example g_complete : In (5, 4) (snd (eval_traced gW g_sem 7 (st_cache (init gW)) 5))
+                     /\ In (5, 2) (snd (eval_traced gW g_sem 7 (st_cache (init gW)) 5)).
+Proof. split; apply evalT_complete; cbn; auto. Qed.
+
+(* after the history, the reads of C1's code are built nodes with their graph edges *)
+Example g_reads_are_graph_edges :
+  let s := fst (run gW g_sem (init gW) g_h) in
+  forall r, In r (reads (emit CtxTop e_C1)) ->
+    ref_covered (fun p => st_built s p = true /\ In 5 (succs gW (st_built s) p)) g_node r.
+Proof.
+  destruct g_needed as (_ & _ & _ & RW & _).
+  apply (reads_are_graph_edges gW g_sem g_node g_fm g_wf g_declared g_h g_in_range 5 e_C1 eq_refl RW).
+  vm_compute. reflexivity.
+Qed.
+
+(* the machine's reads of B1 and C1 are nodes of their needed addresses *)
+Example g_traced_reads_needed : forall n p e,
+  In (n, p) (snd (eval_traced gW g_sem 7 (st_cache (init gW)) 5)) -> g_fm n = Some e ->
+  exists a, In a (needed e) /\ g_node a = Some p.
+Proof. intros n p e. apply (traced_reads_needed gW g_sem g_node g_fm g_declared_only). Qed.
+
+(* the cells of a range computed from A1:A2 reach B1 through the range node *)
+Example g_within_path :
+  exists p, g_node a_A1A2 = Some p /\ edge gW 0 p /\ edge gW p 4.
+Proof.
+  apply (within_path gW g_node (fun a m => a = a_A1A2 /\ (m = 0 \/ m = 1)) 4 [a_A1A2])
+    with (X := fun m => m = 0) (m := 0); auto.
+  - intros a [<-|[]]. exists 3. split; [reflexivity|cbn; auto].
+  - intros a p m [<-|[]] Np [_ Hm]. injection Np as <-. cbn. destruct Hm as [-> | ->]; auto.
+  - intros m -> a [<-|[]]. auto.
+  - left; reflexivity.
+Qed.
